@@ -13,3 +13,11 @@ package tables
 //@   modifies unspecified
 //@   loop 1 invariant [shape] len(sg.Points) == numPoints && 1 <= numPoints && numPoints <= 65536 && 0 <= i && i <= numPoints && 0 <= cursor && cursor <= L && L == len(src)
 //@   loop 1 invariant [lengths] 0 <= coordinatesLengthX && coordinatesLengthX <= 2*i && 0 <= coordinatesLengthY && coordinatesLengthY <= 2*i
+//
+// ParseGlyf: no slice of the glyf data is taken outside it, whatever offsets 'loca' holds (the caller only
+// guarantees a non-empty offset list, see font.NewFont).
+//@ func ParseGlyf C09c
+//@   mode int
+//@   requires [non-empty-loca] len(locaOffsets) >= 1
+//@   modifies unspecified
+//@   loop 1 invariant [shape] len(out) == len(locaOffsets)-1
